@@ -24,6 +24,8 @@ import (
 type twinOpts struct {
 	// extra method-name mapping (lower-case)
 	nameMap map[string]string
+	// scratch parameters (by name) that the twin declares locally: omitted from call argument lists
+	dropParams []string
 }
 
 var apiPairs = map[string]string{
@@ -45,6 +47,7 @@ type twinNorm struct {
 	out   []string
 	pos   []token.Pos
 	drop  map[types.Object]bool
+	skipArg map[types.Object]bool
 }
 
 func (t *twinNorm) emit(s string, p token.Pos) {
@@ -178,12 +181,29 @@ func (t *twinNorm) expr(e ast.Expr) {
 				}
 			}
 		}
+		// len(v) of a container: the typed spelling of v.Dim()
+		if id, ok := x.Fun.(*ast.Ident); ok && id.Name == "len" && len(x.Args) == 1 {
+			if tv, ok := t.info.Types[x.Args[0]]; ok {
+				if n := namedOfType(tv.Type); strings.HasSuffix(n, "Vector") {
+					t.expr(x.Args[0])
+					t.emit(".dim", x.Pos())
+					t.emit("(", x.Lparen)
+					t.emit(")", x.Rparen)
+					return
+				}
+			}
+		}
 		t.expr(x.Fun)
 		t.emit("(", x.Lparen)
-		for i, a := range x.Args {
-			if i > 0 {
+		first := true
+		for _, a := range x.Args {
+			if id, ok := ast.Unparen(a).(*ast.Ident); ok && t.skipArg[t.info.Uses[id]] {
+				continue // scratch scalar supplied by the caller in one twin, declared locally in the other
+			}
+			if !first {
 				t.emit(",", a.Pos())
 			}
+			first = false
 			t.expr(a)
 		}
 		t.emit(")", x.Rparen)
@@ -427,10 +447,19 @@ func (t *twinNorm) stmt(s ast.Stmt) {
 
 // normKernel renders fd's body.
 func normKernel(pkg *packages.Package, fd *ast.FuncDecl, opts twinOpts) *twinNorm {
-	t := &twinNorm{info: pkg.TypesInfo, opts: opts, names: map[types.Object]string{}, drop: map[types.Object]bool{}}
+	t := &twinNorm{info: pkg.TypesInfo, opts: opts, names: map[types.Object]string{}, drop: map[types.Object]bool{}, skipArg: map[types.Object]bool{}}
 	// receiver first, so that it is v0 in both twins
 	if fd.Recv != nil && len(fd.Recv.List[0].Names) > 0 {
 		t.varName(t.info.Defs[fd.Recv.List[0].Names[0]])
+	}
+	for _, f := range fd.Type.Params.List {
+		for _, n := range f.Names {
+			for _, d := range opts.dropParams {
+				if n.Name == d {
+					t.skipArg[t.info.Defs[n]] = true
+				}
+			}
+		}
 	}
 	// leading scratch declarations
 	for _, st := range fd.Body.List {
